@@ -157,7 +157,7 @@ def check_nested(n: int, c0: int, c1: int, c2: int, c3: int, x: int, p: int, for
     pre: 2 <= n <= 3
     pre: 0 <= c0 <= 4 and 0 <= c1 <= 3 and 0 <= c2 <= 2 and 0 <= c3 <= 1
     pre: 0 <= p <= 3
-    pre: 0 <= form <= 1
+    pre: 0 <= form <= 2
     pre: h.in_shard(c0)
     post: _
     """
@@ -171,11 +171,15 @@ def check_nested(n: int, c0: int, c1: int, c2: int, c3: int, x: int, p: int, for
     snap_inner = copy.deepcopy(inner.var_context)
     snaps = [copy.deepcopy(v.var_context) for v in vs]
     flat = list(Sequence(*vs).run(iter([mkval(x, p)])))[0]
+    tail = Compose(*vs[1:]) if form == 2 else None
     for _ in range(2):
         if form == 0:
             got = list(Sequence(inner, vs[n]).run(iter([mkval(x, p)])))[0]
-        else:
+        elif form == 1:
             got = Compose(inner, vs[n])(mkval(x, p))
+        else:
+            # a composition applied after another typed variable
+            got = list(Sequence(vs[0], tail).run(iter([mkval(x, p)])))[0]
         if got != flat:
             return h.ok(False)
         if inner.var_context != snap_inner:
@@ -252,7 +256,7 @@ CONDITIONS = [
          smoke=["check_compose(2, 1, 0, 0, 0, 0, 5, 0)", "check_compose(3, 4, 3, 2, 0, 0, 5, 3)",
                 "check_compose(1, 2, 0, 0, 0, 0, 5, 2)"]),
     dict(fn="check_nested", shards=(5, 5), budget=(80, 900),
-         smoke=["check_nested(2, 0, 0, 0, 0, 5, 0, 0)", "check_nested(2, 4, 3, 2, 0, 5, 3, 1)"]),
+         smoke=["check_nested(2, 0, 0, 0, 0, 5, 0, 0)", "check_nested(2, 4, 3, 2, 0, 5, 3, 1)", "check_nested(3, 0, 0, 0, 0, 5, 3, 2)"]),
     dict(fn="check_combine", shards=(5, 5), budget=(80, 900),
          smoke=["check_combine(2, 1, 0, 0, 0, 5, 0)", "check_combine(3, 4, 3, 2, 0, 5, 3)"]),
     dict(fn="check_bad_args", budget=(40, 100), smoke=["check_bad_args(1)"]),
